@@ -243,3 +243,12 @@ void vfr_make_integer(fr_m *x, uint8_t kinds) {
   __CPROVER_assume(v.d == 1);
 }
 uint8_t vfr_is_uint(fr_m *r, uint32_t v) { fr_val_t x = fr_value(r); return x.d == 1 && x.n == (gz2_t)((uint64_t)v & FR_WMASK); }
+/* integer bound tightening: for EVERY integer v:  (v < c  resp. v <= c)  <=>  v <= ub   and its negation  <=>  v >= lb */
+uint8_t vfr_int_bounds_ok(uint8_t strict, uint8_t sc, uint8_t sub, uint8_t slb) {
+  fr_val_t c = fr_slot[sc % FR_SLOTS], ub = fr_slot[sub % FR_SLOTS], lb = fr_slot[slb % FR_SLOTS];
+  if (ub.d != 1 || lb.d != 1) return 0;
+  gz_t v = GZ_NONDET();
+  if (v < -((gz_t)1 << (FR_W + 1)) || v > ((gz_t)1 << (FR_W + 1))) return 1;
+  int holds = strict ? ((gz2_t)v * c.d < c.n) : ((gz2_t)v * c.d <= c.n);
+  return (holds == ((gz2_t)v <= ub.n)) && ((!holds) == ((gz2_t)v >= lb.n));
+}
